@@ -3,7 +3,9 @@ package evaluator
 import (
 	"encoding/json"
 	"math"
+	"math/big"
 	"reflect"
+	"strconv"
 
 	"github.com/woodsbury/decimal128"
 )
@@ -81,20 +83,15 @@ func avg(v any) (any, error) {
 		return nil, nil
 	}
 
-	var r decimal128.Decimal
-	for _, v := range a {
-		d, ok := toDecimal(v)
-		if !ok {
-			return nil, &InvalidTypeError{
-				got:  reflect.TypeOf(v),
-				want: "number",
-			}
-		}
-
-		r = r.Add(d)
+	total, special, err := exactSum(a)
+	if err != nil {
+		return nil, err
 	}
 
-	r = r.Quo(decimal128.FromInt64(int64(len(a))))
+	r := special
+	if total != nil {
+		r = ratToDecimal(total.Quo(total, big.NewRat(int64(len(a)), 1)))
+	}
 
 	if r.IsInf(0) {
 		return nil, ErrInfinity
@@ -409,17 +406,14 @@ func sum(v any) (any, error) {
 		}
 	}
 
-	var r decimal128.Decimal
-	for _, v := range a {
-		d, ok := toDecimal(v)
-		if !ok {
-			return nil, &InvalidTypeError{
-				got:  reflect.TypeOf(v),
-				want: "number",
-			}
-		}
+	total, special, err := exactSum(a)
+	if err != nil {
+		return nil, err
+	}
 
-		r = r.Add(d)
+	r := special
+	if total != nil {
+		r = ratToDecimal(total)
 	}
 
 	if r.IsInf(0) {
@@ -431,6 +425,104 @@ func sum(v any) (any, error) {
 	}
 
 	return r, nil
+}
+
+// exactSum adds the numbers in a without intermediate rounding, so that sum
+// and avg round only once. If any element is an infinity or NaN the sum is
+// not finite and is returned as a decimal instead.
+func exactSum(a []any) (*big.Rat, decimal128.Decimal, error) {
+	total := new(big.Rat)
+	var special decimal128.Decimal
+	finite := true
+	for _, v := range a {
+		d, ok := toDecimal(v)
+		if !ok {
+			return nil, special, &InvalidTypeError{
+				got:  reflect.TypeOf(v),
+				want: "number",
+			}
+		}
+
+		if d.IsNaN() || d.IsInf(0) {
+			finite = false
+		}
+
+		if finite {
+			total.Add(total, d.Rat(nil))
+		} else {
+			special = special.Add(d)
+		}
+	}
+
+	if !finite {
+		return nil, special, nil
+	}
+
+	return total, special, nil
+}
+
+// ratToDecimal converts r into the nearest Decimal, rounding half to even
+// once. decimal128.FromRat rounds the numerator, the denominator and their
+// quotient separately, which can leave the result off by one unit in the last
+// place.
+func ratToDecimal(r *big.Rat) decimal128.Decimal {
+	if r.Sign() == 0 {
+		return decimal128.Decimal{}
+	}
+
+	const (
+		precision   = 34
+		minExponent = -6176
+	)
+
+	num := new(big.Int).Abs(r.Num())
+	den := r.Denom()
+	ten := big.NewInt(10)
+	limit := new(big.Int).Exp(ten, big.NewInt(precision), nil)
+
+	// num/den lies strictly between 10^(exp+33) and 10^(exp+35).
+	exp := len(num.String()) - len(den.String()) - precision
+	sig := new(big.Int)
+	rem := new(big.Int)
+	div := new(big.Int)
+	for {
+		if exp < minExponent {
+			exp = minExponent
+		}
+
+		scale := new(big.Int).Exp(ten, big.NewInt(int64(max(exp, -exp))), nil)
+		if exp >= 0 {
+			div.Mul(den, scale)
+			sig.QuoRem(num, div, rem)
+		} else {
+			div.Set(den)
+			sig.QuoRem(scale.Mul(scale, num), div, rem)
+		}
+
+		if sig.Cmp(limit) < 0 {
+			break
+		}
+
+		exp++
+	}
+
+	half := rem.Lsh(rem, 1).Cmp(div)
+	if half > 0 || (half == 0 && sig.Bit(0) == 1) {
+		sig.Add(sig, big.NewInt(1))
+		if sig.Cmp(limit) == 0 {
+			sig.Quo(sig, ten)
+			exp++
+		}
+	}
+
+	s := sig.String() + "e" + strconv.Itoa(exp)
+	if r.Sign() < 0 {
+		s = "-" + s
+	}
+
+	// An out of range value is returned as an infinity.
+	d, _ := decimal128.Parse(s)
+	return d
 }
 
 func toDecimal(v any) (decimal128.Decimal, bool) {
